@@ -65,7 +65,9 @@ def name_class_rename(name, rng):
         if ch == "_" and lower_snake and rng.random() < 0.3 and not (i == 1 and rest[0] in "gstue"):
             out.append(rng.choice("abcdefghijklmnopqrstuvwxyz"))      # still lower-case snake case
         elif ch.islower():
-            out.append(rng.choice("abcdefghijklmnopqrstuvwxyz" if i == 0 or rng.random() > 0.1 else "0123456789"))
+            # a digit may stand for a lower-case letter only in an all-lower name: in a mixed-case name (`TOTo`) the
+            # lower-case letters are what keeps it out of the upper-case class
+            out.append(rng.choice("abcdefghijklmnopqrstuvwxyz" if i == 0 or not lower_snake or rng.random() > 0.1 else "0123456789"))
         elif ch.isupper():
             # all-upper names (macros) may carry digits after the first character, and underscores anywhere
             # as long as a letter remains (`_T_ONE` is as upper-case as `FT_ONE`)
